@@ -15,12 +15,16 @@ from the generated definition by unfolding, a case split over the special-case b
 The wrappers `mulQuat`, `rotVecQuat`, … only uncurry the scalarised generated kernels (array cells are
 separate arguments there) so that the property theorems can be stated over tuples.
 -/
+set_option linter.unusedTactic false
+set_option linter.unreachableTactic false
+set_option linter.unusedSimpArgs false
 namespace MjProof.Spatial
 open MjProof MjProof.Gen
 
 /-- closes a goal that is a conjunction of polynomial identities (what `Prod.mk.injEq` leaves of an equation
 between tuples), whatever number of components `simp` has already discharged -/
-macro "tuple_ring" : tactic => `(tactic| first | done | rfl | ((repeat' constructor) <;> ring))
+macro "tuple_ring" : tactic =>
+  `(tactic| first | done | rfl | ((repeat' constructor) <;> first | ring | (ring_nf; done)))
 
 abbrev Quat := ℝ × ℝ × ℝ × ℝ
 abbrev Vec3 := ℝ × ℝ × ℝ
@@ -205,7 +209,7 @@ theorem mju_normalize4_eq (v0 v1 v2 v3 : ℝ) :
   split_ifs with h1 h2
   · simp
   · simp only [Prod.mk.injEq]; tuple_ring
-  · rfl
+  · first | rfl | (simp only [Prod.mk.injEq]; tuple_ring)
 
 /-- a unit 4-vector passes through `mju_normalize4` unchanged (norm = 1: neither the "too small" nor the
 "not close to 1" branch is taken) -/
@@ -221,13 +225,19 @@ theorem mju_mulPose_eq (p0 p1 p2 a0 a1 a2 a3 r0 r1 r2 b0 b1 b2 b3 : ℝ) :
       ((rotF r0 r1 r2 a0 a1 a2 a3).1 + p0, (rotF r0 r1 r2 a0 a1 a2 a3).2.1 + p1,
        (rotF r0 r1 r2 a0 a1 a2 a3).2.2 + p2,
        (mju_normalize4 (a0*b0 - a1*b1 - a2*b2 - a3*b3) (a0*b1 + a1*b0 + a2*b3 - a3*b2)
-          (a0*b2 - a1*b3 + a2*b0 + a3*b1) (a0*b3 + a1*b2 - a2*b1 + a3*b0)).2) := by
+          (a0*b2 - a1*b3 + a2*b0 + a3*b1) (a0*b3 + a1*b2 - a2*b1 + a3*b0)).2.1,
+       (mju_normalize4 (a0*b0 - a1*b1 - a2*b2 - a3*b3) (a0*b1 + a1*b0 + a2*b3 - a3*b2)
+          (a0*b2 - a1*b3 + a2*b0 + a3*b1) (a0*b3 + a1*b2 - a2*b1 + a3*b0)).2.2.1,
+       (mju_normalize4 (a0*b0 - a1*b1 - a2*b2 - a3*b3) (a0*b1 + a1*b0 + a2*b3 - a3*b2)
+          (a0*b2 - a1*b3 + a2*b0 + a3*b1) (a0*b3 + a1*b2 - a2*b1 + a3*b0)).2.2.2.1,
+       (mju_normalize4 (a0*b0 - a1*b1 - a2*b2 - a3*b3) (a0*b1 + a1*b0 + a2*b3 - a3*b2)
+          (a0*b2 - a1*b3 + a2*b0 + a3*b1) (a0*b3 + a1*b2 - a2*b1 + a3*b0)).2.2.2.2) := by
   simp only [mju_mulPose, rotF, real_beq, real_ofInt, decide_eq_true_eq, Bool.decide_and,
     Bool.and_eq_true]
   push_cast
   split_ifs with h
   · obtain ⟨⟨⟨rfl, rfl⟩, rfl⟩, rfl⟩ := h; simp
-  · rfl
+  · first | rfl | (simp only [Prod.mk.injEq]; tuple_ring)
 
 theorem mju_negPose_eq (p0 p1 p2 q0 q1 q2 q3 : ℝ) :
     mju_negPose p0 p1 p2 q0 q1 q2 q3 =
@@ -253,7 +263,7 @@ theorem mju_trnVecPose_eq (p0 p1 p2 q0 q1 q2 q3 v0 v1 v2 : ℝ) :
   push_cast
   split_ifs with h
   · obtain ⟨⟨⟨rfl, rfl⟩, rfl⟩, rfl⟩ := h; simp
-  · rfl
+  · first | rfl | (simp only [Prod.mk.injEq]; tuple_ring)
 
 /-- `mju_quatIntegrate` = normalise the quaternion, multiply on the right by the axis-angle quaternion of
 the normalised velocity with angle `scale * |vel|` (structure of the generated code, all branches) -/
